@@ -167,6 +167,25 @@ fn with_fresh<R>(w: &World, open: &BTreeMap<usize, String>, f: impl FnOnce(&LspS
     Some(f(&lsp, &FreshAnswers { diagnostics: map }))
 }
 
+/// The oracle as the property states it: a fresh server on the *effective contents* - every
+/// open buffer's text written over its file - with the same documents open (their text now
+/// equals the disk). Only defined when every open buffer has a file on disk. The files are
+/// restored afterwards; the running server does not look at the disk meanwhile.
+fn with_effective<R>(w: &World, open: &BTreeMap<usize, String>, f: impl FnOnce(&LspState<Profile>, &FreshAnswers) -> R) -> Option<R> {
+    if open.is_empty() || !open.keys().all(|p| w.abs(PATHS[*p].rel).is_file()) {
+        return None;
+    }
+    let saved: Vec<(std::path::PathBuf, Vec<u8>)> = open.keys().map(|p| { let path = w.abs(PATHS[*p].rel); let bytes = std::fs::read(&path).unwrap_or_default(); (path, bytes) }).collect();
+    for (p, text) in open {
+        std::fs::write(w.abs(PATHS[*p].rel), text.as_bytes()).expect("harness: materialise buffer");
+    }
+    let r = with_fresh(w, open, f);
+    for (path, bytes) in saved {
+        std::fs::write(&path, bytes).expect("harness: restore file");
+    }
+    r
+}
+
 pub fn run(case: &LspCase, tag: u64) -> Outcome {
     let w = World::create(tag);
     cx::clear_hooks();
@@ -313,6 +332,18 @@ pub fn run(case: &LspCase, tag: u64) -> Outcome {
                                 detail: format!("{kind:?} on {} at {pos:?}: server {} ; fresh server {}", PATHS[p].rel, &g[..g.len().min(300)], &wnt[..wnt.len().min(300)]),
                                 step: idx,
                             });
+                        } else if let Some(eff) = with_effective(&w, &open, |fresh, _| ask(fresh, request(kind, &uri, pos))) {
+                            bump(&mut c, "requests_compared_with_effective_contents");
+                            if got != eff {
+                                let g = got.to_string();
+                                let wnt = eff.to_string();
+                                out.violations.push(Violation {
+                                    property: "C21",
+                                    kind: "answer-differs-from-server-on-effective-contents",
+                                    detail: format!("{kind:?} on {} at {pos:?}: server (buffers over disk) {} ; fresh server on the effective contents {}", PATHS[p].rel, &g[..g.len().min(300)], &wnt[..wnt.len().min(300)]),
+                                    step: idx,
+                                });
+                            }
                         }
                     }
                 }
@@ -341,6 +372,22 @@ pub fn run(case: &LspCase, tag: u64) -> Outcome {
                     }
                 } else {
                     bump(&mut c, "fresh_server_could_not_start");
+                }
+                if out.violations.is_empty() {
+                    if let Some(eff) = with_effective(&w, &open, |_, fresh| fresh.diagnostics.clone()) {
+                        bump(&mut c, "quiescent_points_checked_with_effective_contents");
+                        if eff != published {
+                            let only_server: Vec<&String> = published.keys().filter(|k| !eff.contains_key(*k)).collect();
+                            let only_fresh: Vec<&String> = eff.keys().filter(|k| !published.contains_key(*k)).collect();
+                            let differ: Vec<&String> = published.iter().filter(|(k, v)| eff.get(*k).map(|x| x != *v).unwrap_or(false)).map(|(k, _)| k).collect();
+                            out.violations.push(Violation {
+                                property: "C21",
+                                kind: "diagnostics-differ-from-server-on-effective-contents",
+                                detail: format!("effective diagnostics differ from a fresh server on the effective contents: only on the running server {only_server:?}; only there {only_fresh:?}; different {differ:?}"),
+                                step: idx,
+                            });
+                        }
+                    }
                 }
             }
         }
@@ -385,6 +432,16 @@ pub fn generate(seed: u64) -> LspCase {
         initial.push((*rng.pick(&SRC), *rng.pick(&[0usize, 2, 3, 4, 5, 6, 7, 12, 13, 11])));
     }
     let mut steps = Vec::new();
+    let mut on_disk: BTreeMap<usize, usize> = initial.iter().cloned().collect();
+    // a buffer is often what is on disk with lines inserted on top (positions shift), or some
+    // other snippet, sometimes shifted as well
+    let buffer_snippet = |rng: &mut Rng, on_disk: &BTreeMap<usize, usize>, p: usize| -> usize {
+        match (on_disk.get(&p), rng.below(4)) {
+            (Some(s), 0) => 100 + *s,
+            (_, 1) => 100 + session::gen_snippet(rng),
+            _ => session::gen_snippet(rng),
+        }
+    };
     // half of the runs let diagnostics be computed before anything is opened
     if rng.chance(1, 2) {
         steps.push(LStep::Timer);
@@ -393,13 +450,20 @@ pub fn generate(seed: u64) -> LspCase {
     for _ in 0..n {
         let p = *rng.pick(&SRC);
         let step = match rng.weighted(&[5, 6, 2, 4, 3, 1, 3, 8, 3]) {
-            0 => LStep::DidOpen(p, session::gen_snippet(&mut rng)),
-            1 => LStep::DidChange(p, session::gen_snippet(&mut rng)),
+            0 => LStep::DidOpen(p, buffer_snippet(&mut rng, &on_disk, p)),
+            1 => LStep::DidChange(p, buffer_snippet(&mut rng, &on_disk, p)),
             2 => LStep::DidClose(p),
             3 => LStep::Disk(match rng.below(6) {
-                0 => EdOp::Delete(p),
+                0 => {
+                    on_disk.remove(&p);
+                    EdOp::Delete(p)
+                }
                 1 => EdOp::WriteSchema(*rng.pick(&[0usize, 0, 1, 2])),
-                _ => EdOp::Write(p, session::gen_snippet(&mut rng)),
+                _ => {
+                    let s = session::gen_snippet(&mut rng);
+                    on_disk.insert(p, s);
+                    EdOp::Write(p, s)
+                }
             }),
             4 => LStep::DeliverFs,
             5 => LStep::Gc,
